@@ -67,3 +67,17 @@ func VerifH_TimeRanges() {
 	}
 	symx.Reach("end")
 }
+
+// C07/H1b: IDParseEx agrees with IDParse: the instant it returns is the id's millisecond timestamp.
+func VerifH_IDParseEx() {
+	verifLayout()
+	timeLoc = time.FixedZone("CST", 8*3600) // the tz database is not read (see VerifH_CnStyleRoundTrip)
+	id := symx.Int64("id")
+	symx.Assume(id >= 0)
+	ms, node, step := IDParse(id)
+	t, n2, s2 := IDParseEx(id)
+	symx.Assert(n2 == node && s2 == step, "same node and step")
+	symx.Assert(t.Unix()*SDivMs+int64(t.Nanosecond())/MsDivNs == ms, "the instant is the id's millisecond timestamp")
+	symx.Assert(int64(t.Nanosecond())%MsDivNs == 0, "whole milliseconds")
+	symx.Reach("end")
+}
